@@ -12,6 +12,7 @@ import (
 	"github.com/blevesearch/bleve/v2/mapping"
 	"github.com/blevesearch/bleve/v2/search"
 	"github.com/blevesearch/bleve/v2/search/query"
+	"github.com/blevesearch/geo/s2"
 	"pgregory.net/rapid"
 )
 
@@ -326,11 +327,20 @@ func TestC18Geo(t *testing.T) {
 				hit[h.ID] = true
 			}
 			yes, no := 0, 0
+			_, s2RectKnown := KnownOpen("C18", c18KnownS2RectCovering)
+			s2RectKnown = s2RectKnown && cfg.Spatial == "s2" && s.Kind == "box"
 			for _, id := range sortedKeys(docs) {
 				ps := docs[id]
 				v := No
 				for _, p := range ps {
-					if c := s.contains(p); c > v {
+					c := s.contains(p)
+					if c == Yes && s2RectKnown && c18S2RectCoveringMisses(s, p) {
+						// the open finding, by its exact call site: the s2 library's covering of this
+						// rectangle has no cell for this point, so no query term can find it
+						ev.Exclude(c18KnownS2RectCovering)
+						c = Either
+					}
+					if c > v {
 						v = c
 					}
 				}
@@ -394,4 +404,71 @@ func TestC18Geo(t *testing.T) {
 			ev.Case(len(res.Hits) >= 3, map[string]interface{}{"cfg": cfg, "origin": origin, "desc": desc, "docs": docs}, nil, "distance-sort")
 		}
 	})
+}
+
+// ---------------------------------------------------------------- open finding
+
+const c18KnownS2RectCovering = "C18/s2-rect-covering-drops-cells"
+
+// c18S2RectCoveringMisses reports whether the query terms of a box query under the s2 plugin
+// cannot reach point p: bleve asks the s2 library (github.com/blevesearch/geo, a dependency
+// outside /repo) for a cell covering of the rectangle (two rectangles for a box across the
+// date line) with the options of geo.initS2OptionsForGeoPoints and searches the covering
+// cells' terms; s2.Rect.IntersectsCell answers "disjoint" for some cells the rectangle's
+// parallel cuts twice, and the covering then lacks every cell below such a cell.  The
+// covering is computed here from the library itself, not through bleve: a change in bleve
+// that loses terms of a correct covering is not excused by this predicate.
+func c18S2RectCoveringMisses(s shape, p pt) bool {
+	type part struct{ left, right float64 }
+	parts := []part{{s.Left, s.Right}}
+	if s.Right < s.Left {
+		parts = []part{{-180, s.Right}, {s.Left, 180}}
+	}
+	P := s2.PointFromLatLng(s2.LatLngFromDegrees(p.Lat, p.Lon))
+	for _, pa := range parts {
+		rc := &s2.RegionCoverer{MinLevel: 4, MaxLevel: 16, LevelMod: 2, MaxCells: 8}
+		cov := rc.Covering(s2.RectFromDegrees(s.Bottom, pa.left, s.Top, pa.right))
+		if cov.ContainsPoint(P) {
+			return false
+		}
+	}
+	return true
+}
+
+// TestC18KnownS2RectCovering re-demonstrates the open finding on every run: the box
+// lon -20..20, lat 43.2265625..90 has its two lower corners just above the upper edge of the
+// cube face centred on (0,0) (that edge, a geodesic, is at 43.2193 degrees there and rises to
+// 45 degrees at longitude 0), so the box reaches into the face only between its corners; the
+// library reports the face as disjoint and the document at (1, 43.43), inside the box by 0.2
+// degrees, is not found.  Without the plugin the same index answers correctly.
+func TestC18KnownS2RectCovering(t *testing.T) {
+	found := map[string]bool{}
+	for _, spatial := range []string{"", "s2"} {
+		idx, err := Config{Engine: EngScorchMem, Spatial: spatial}.Create("", c18Mapping())
+		if err != nil {
+			t.Fatalf("harness: %v", err)
+		}
+		if err := idx.Index("g0", map[string]interface{}{"g": map[string]interface{}{"lon": 1.0, "lat": 43.43253655778978}}); err != nil {
+			t.Fatalf("harness: %v", err)
+		}
+		q := bleve.NewGeoBoundingBoxQuery(-20, 90, 20, 43.2265625)
+		q.SetField("g")
+		res, err := idx.Search(bleve.NewSearchRequest(q))
+		idx.Close()
+		if err != nil {
+			t.Fatalf("harness: %v", err)
+		}
+		found[spatial] = res.Total == 1
+	}
+	if !found[""] {
+		t.Fatalf("box lon -20..20 lat 43.2265625..90 misses the point (1, 43.4325) without the s2 plugin")
+	}
+	if found["s2"] {
+		return
+	}
+	if k, open := KnownOpen("C18", c18KnownS2RectCovering); open {
+		ReportKnown(k)
+		return
+	}
+	t.Fatalf("box lon -20..20 lat 43.2265625..90 misses the point (1, 43.4325) on scorch with the s2 plugin")
 }
